@@ -19,6 +19,7 @@ type tally struct {
 	mu                           sync.Mutex
 	hStart, hDone, pStart, pDone int
 	errs                         int
+	completeWithoutStart         int
 }
 
 func (o *tally) OnPublishStart(ctx context.Context, _ string, _ any) context.Context {
@@ -41,6 +42,9 @@ func (o *tally) OnHandlerStart(ctx context.Context, _ string, _ bool) context.Co
 func (o *tally) OnHandlerComplete(_ context.Context, _ time.Duration, err error) {
 	o.mu.Lock()
 	o.hDone++
+	if o.hDone > o.hStart {
+		o.completeWithoutStart++
+	}
 	if err != nil {
 		o.errs++
 	}
@@ -100,6 +104,58 @@ func goexitHandlers(run *vk.Run) {
 		run.Case(fmt.Sprintf("goexit ctx%v seq%v mixed%v", ctxAware, seq, mixed), true)
 		if hs != wantH || hd != hs || ps != 3 || pd != 3 || errs != wantErr {
 			run.Violation("obs:handler-ending-its-goroutine", fmt.Sprintf("three publishes to an asynchronous handler that calls runtime.Goexit (context-aware %v, sequential %v, next to other handlers %v): %d handler starts, %d completes (%d with an error; want %d starts = completes, %d errors), %d / %d publish starts / completes", ctxAware, seq, mixed, hs, hd, errs, wantH, wantErr, ps, pd), nil)
+		}
+	}
+}
+
+// abandonedSequentialWait: a publish reaches a synchronous Sequential handler that is busy for
+// another publisher, and its context is cancelled while it waits its turn. Whether the handler then
+// still runs for it or not, every OnHandlerComplete has its OnHandlerStart and both publishes are
+// started and completed once.
+func abandonedSequentialWait(run *vk.Run) {
+	for variant := 0; variant < 4; variant++ {
+		ctxAware, deadline := variant&1 != 0, variant&2 != 0
+		obs := &tally{}
+		bus := ebu.New(ebu.WithObservability(obs))
+		in1, gate := make(chan struct{}), make(chan struct{})
+		body := func(n int) {
+			if n == 1 {
+				close(in1)
+				<-gate
+			}
+		}
+		if ctxAware {
+			ebu.SubscribeContext(bus, func(_ context.Context, e gxEv) { body(e.N) }, ebu.Sequential())
+		} else {
+			ebu.Subscribe(bus, func(e gxEv) { body(e.N) }, ebu.Sequential())
+		}
+		var wg sync.WaitGroup
+		wg.Add(2)
+		go func() { defer wg.Done(); ebu.Publish(bus, gxEv{1}) }()
+		<-in1
+		ctx2, cancel2 := context.WithCancel(context.Background())
+		if deadline {
+			ctx2, cancel2 = context.WithTimeout(context.Background(), 2*time.Millisecond)
+		}
+		go func() { defer wg.Done(); ebu.PublishContext(bus, ctx2, gxEv{2}) }()
+		for y := 0; y < 300; y++ {
+			runtime.Gosched()
+		}
+		time.Sleep(4 * time.Millisecond)
+		cancel2()
+		for y := 0; y < 300; y++ {
+			runtime.Gosched()
+		}
+		time.Sleep(2 * time.Millisecond)
+		close(gate)
+		wg.Wait()
+		bus.Wait()
+		obs.mu.Lock()
+		hs, hd, ps, pd, cws := obs.hStart, obs.hDone, obs.pStart, obs.pDone, obs.completeWithoutStart
+		obs.mu.Unlock()
+		run.Case(fmt.Sprintf("context cancelled while waiting for a busy Sequential handler|ctx%v|deadline%v", ctxAware, deadline), true)
+		if hs != hd || cws != 0 || ps != 2 || pd != 2 {
+			run.Violation("obs:abandoned-sequential-wait", fmt.Sprintf("a publish waited for a synchronous Sequential handler (context-aware %v) that was busy for another publisher, and its context ended meanwhile (deadline %v): %d handler starts, %d completes, %d completes arrived without a start before them; %d / %d publish starts / completes (want 2 / 2)", ctxAware, deadline, hs, hd, cws, ps, pd), nil)
 		}
 	}
 }
